@@ -24,6 +24,14 @@ func genC19(seed uint64, r *rng.Rand) *Plan {
 		// slow dials: Close lands while a connection is being established
 		p.Faults = append(p.Faults, &Fault{On: "step", N: 1, Act: "dialdelay", Dur: []int{1, 5, 50, 400, 3000, 40000}[g.R.Intn(6)]})
 	}
+	if g.R.Chance(0.15) {
+		// ZooKeeper keeps failing, from the start or after some progress: the
+		// establisher of hbase:meta (or of the master) is in its lookup loop
+		// when Close comes
+		at := g.R.Range(0, 6)
+		p.Faults = append(p.Faults, &Fault{On: "exec", N: at, Act: "zkfail", Count: -1})
+		p.Faults = append(p.Faults, &Fault{On: "exec", N: at, Act: "reset", Server: p.Layout.Meta})
+	}
 	// Close at a PRNG-chosen step, biased to the early windows (lookup, dial, probe)
 	n := []int{g.R.Range(1, 60), g.R.Range(1, 250), g.R.Range(1, 1500)}[g.R.Intn(3)]
 	p.Faults = append(p.Faults, &Fault{On: "step", N: n, Act: "close"})
